@@ -301,7 +301,9 @@ class RegionGeom:
         # between this trajectory and the normal is thetaTrSubN (costhetaTrSubN).
         xPath_v = dist_along_traj * np.sin(self.thetas()) * np.sin(self.phis())
 
-        yPath_v = -dist_along_traj * np.sin(self.thetas()) * np.cos(
+        # (the sign is applied to the trigonometric factor, not to the caller's
+        # distances: negating an unsigned-integer array would wrap around)
+        yPath_v = dist_along_traj * np.sin(self.thetas()) * -np.cos(
             self.phis()
         ) + self.earth_radius * np.cos(self.valid_elevAngVSubN())
 
